@@ -4,11 +4,13 @@ package absnfs
 
 import (
 	"fmt"
+	"sort"
 	"testing"
 	"time"
 
 	"verif.local/lib/evid"
 	"verif.local/lib/refs"
+	"verif.local/lib/xdrw"
 )
 
 // C05: handles are live when issued, one per path, table bounded.
@@ -323,6 +325,9 @@ func TestVerif_C06(t *testing.T) {
 	hh := evid.Pick(60, 2000)
 	for ep := 0; ep < hh && rec.Violations() < 30; ep++ {
 		vfC06Handlers(rec, ep)
+	}
+	for ep := 0; ep < evid.Pick(40, 1500) && rec.Violations() < 30; ep++ {
+		vfC06NoEviction(rec, ep)
 	}
 	rec.Sample(map[string]any{"direct": "Allocate/Get/Release/ReleaseAll histories; every value ever returned is kept and replayed", "handlers": "LOOKUP of 2*max files, READ through every old value, Unexport/Export, Release", "max_values": []int{1, 2, 3, 5, 10, 64}})
 }
@@ -683,4 +688,130 @@ func vfC05NameReuse(rec *evid.Rec, ep int) {
 		rec.Distinct(fmt.Sprintf("handler|name-reuse|%s-after-%s|via=%s", kind, prev, src))
 		prev = kind
 	}
+}
+
+// vfC06NoEviction: the table is far from full and nobody calls Release, so nothing frees a handle
+// value (the recorded finding - reuse of values freed by eviction or Release - cannot occur). Through
+// ordinary traffic (LOOKUP, CREATE, REMOVE, RENAME, RMDIR, MNT, UMNT, READ) no value may ever be
+// issued for a second path, and an old value is served against its own path or answered STALE.
+func vfC06NoEviction(rec *evid.Rec, ep int) {
+	rng := evid.Rng(666, int64(ep))
+	fs := refs.New()
+	fs.PlantDir("/dir", 0777, 0, 0)
+	for i := 0; i < 6; i++ {
+		fs.PlantFile(fmt.Sprintf("/dir/e%d", i), []byte(fmt.Sprintf("content-of-e%d", i)), 0666, 0, 0)
+	}
+	srv, err := vfNewSrv(fs, ExportOptions{AttrCacheTimeout: []time.Duration{1, 5 * time.Second}[ep%2]})
+	if err != nil {
+		rec.Infra(err.Error())
+		return
+	}
+	defer srv.Close()
+	c := srv.client()
+	first := map[uint64]string{}
+	var ops []string
+	bad := func(sig, what string) {
+		rec.Violate(sig, what, map[string]any{"episode": ep, "ops": append([]string(nil), ops...)})
+	}
+	note := func(h uint64, p, by string) {
+		if h == 0 {
+			return
+		}
+		if fp, seen := first[h]; seen && fp != p {
+			bad("C06/handler/value-issued-for-a-second-path/no-eviction-no-release/by="+by, fmt.Sprintf("handle value %d was issued for %s and is now issued (by %s) for %s; the table holds %d of 100000 entries and nothing was released", h, fp, by, p, srv.nfs.fileMap.Count()))
+		} else if !seen {
+			first[h] = p
+		}
+	}
+	mount := func() uint64 {
+		h, err := c.mnt("/")
+		if err != nil {
+			return 0
+		}
+		note(h, "/", "MNT")
+		return h
+	}
+	root := mount()
+	dl, _ := c.lookup(root, "dir")
+	if root == 0 || dl == nil || dl.Status != 0 {
+		rec.Infra("setup")
+		return
+	}
+	dir := vfFH(dl.FH)
+	note(dir, "/dir", "LOOKUP")
+	fresh := 0
+	for i := 0; i < 50; i++ {
+		rec.Eval(1)
+		switch k := rng.Intn(100); {
+		case k < 25:
+			name := fmt.Sprintf("e%d", rng.Intn(6))
+			ops = append(ops, "LOOKUP "+name)
+			if r, _ := c.lookup(dir, name); r != nil && r.Status == 0 {
+				note(vfFH(r.FH), "/dir/"+name, "LOOKUP")
+			}
+		case k < 40:
+			fresh++
+			name := fmt.Sprintf("n%d", fresh)
+			ops = append(ops, "CREATE "+name)
+			if r, _ := c.create(dir, name, 1, sattrNone, [8]byte{}); r != nil && r.Status == 0 && r.FHPresent {
+				note(vfFH(r.FH), "/dir/"+name, "CREATE")
+			}
+		case k < 52:
+			name := fmt.Sprintf("e%d", rng.Intn(6))
+			ops = append(ops, "REMOVE "+name+" (then put back behind the server's back)")
+			c.remove(dir, name)
+			fs.PlantFile("/dir/"+name, []byte("content-of-"+name), 0666, 0, 0)
+		case k < 60:
+			ops = append(ops, "UMNT /")
+			c.rawCall(vfProgMount, 3, 3, (&xdrw.W{}).Str("/").B)
+		case k < 66:
+			ops = append(ops, "MNT /")
+			if h := mount(); h != 0 {
+				root = h
+			}
+		case k < 74:
+			fresh++
+			a, b := fmt.Sprintf("e%d", rng.Intn(6)), fmt.Sprintf("m%d", fresh)
+			ops = append(ops, "RENAME "+a+" -> "+b+" (and a new "+a+" planted)")
+			c.rename(dir, a, dir, b)
+			fs.PlantFile("/dir/"+a, []byte("content-of-"+a), 0666, 0, 0)
+		case k < 80:
+			fresh++
+			name := fmt.Sprintf("d%d", fresh)
+			ops = append(ops, "MKDIR+RMDIR "+name)
+			if r, _ := c.mkdir(dir, name, sattrNone); r != nil && r.Status == 0 && r.FHPresent {
+				note(vfFH(r.FH), "/dir/"+name, "MKDIR")
+			}
+			c.rmdir(dir, name)
+		default: // replay an old value
+			if len(first) == 0 {
+				continue
+			}
+			ids := make([]uint64, 0, len(first))
+			for id := range first {
+				ids = append(ids, id)
+			}
+			sort.Slice(ids, func(a, b int) bool { return ids[a] < ids[b] })
+			id := ids[rng.Intn(len(ids))]
+			p := first[id]
+			ops = append(ops, fmt.Sprintf("GETATTR+READ handle=%d (issued for %s)", id, p))
+			lo := fs.LogLen()
+			g, _ := c.getattr(id)
+			r, _ := c.read(id, 0, 100)
+			for _, op := range fs.LogSlice(lo, fs.LogLen()) {
+				if op.Path != p {
+					bad("C06/handler/request-served-against-other-path/no-eviction-no-release", fmt.Sprintf("a request with handle %d (issued for %s) made the backend touch %s", id, p, op.Path))
+					break
+				}
+			}
+			if r != nil && r.Status == 0 {
+				if want, ok := fs.Bytes(p); !ok || string(r.Data) != string(want) {
+					bad("C06/handler/other-objects-data-returned/no-eviction-no-release", fmt.Sprintf("READ with handle %d (issued for %s) returned %q", id, p, r.Data))
+				}
+			}
+			_ = g
+			rec.Distinct(fmt.Sprintf("no-eviction|replay|getattr=%d|read=%d", vfSt(g), vfSt(r)))
+		}
+	}
+	rec.Distinct(fmt.Sprintf("no-eviction|values=%d", min64i(len(first)/5*5, 40)))
 }
